@@ -7,8 +7,14 @@
 //!
 //! See examples/clicker.rs for a concrete, complete example of exactly that.
 
+#[cfg(not(rescrv_blue_verif_shuttle))]
 use std::sync::atomic::{AtomicBool, AtomicU64, Ordering};
+#[cfg(not(rescrv_blue_verif_shuttle))]
 use std::sync::{Condvar, Mutex, MutexGuard};
+#[cfg(rescrv_blue_verif_shuttle)]
+use shuttle::sync::atomic::{AtomicBool, AtomicU64, Ordering};
+#[cfg(rescrv_blue_verif_shuttle)]
+use shuttle::sync::{Condvar, Mutex, MutexGuard};
 
 use biometrics::Counter;
 
@@ -107,6 +113,27 @@ impl<T: Clone> Waiter<T> {
     }
 }
 
+/////////////////////////////////////////// verification ///////////////////////////////////////////
+
+/// Verification hooks.  Compiled only with `--cfg rescrv_blue_verif`.
+#[cfg(rescrv_blue_verif)]
+pub mod verif {
+    use std::sync::atomic::{AtomicUsize, Ordering};
+
+    static DEFAULT_CAPACITY: AtomicUsize = AtomicUsize::new(crate::MAX_CONCURRENCY);
+
+    /// The number of waiters allocated by `WaitList::new`.  Defaults to MAX_CONCURRENCY.
+    pub fn default_capacity() -> usize {
+        DEFAULT_CAPACITY.load(Ordering::Relaxed)
+    }
+
+    /// Set the number of waiters allocated by subsequent calls to `WaitList::new`.
+    pub fn set_default_capacity(capacity: usize) {
+        assert!(capacity > 0);
+        DEFAULT_CAPACITY.store(capacity, Ordering::Relaxed);
+    }
+}
+
 /////////////////////////////////////////// WaitListState //////////////////////////////////////////
 
 #[derive(Debug)]
@@ -131,7 +158,32 @@ impl<T: Clone> WaitList<T> {
     pub fn new() -> Self {
         NEW_WAIT_LIST.click();
         let mut waiters: Vec<Waiter<T>> = Vec::new();
+        #[cfg(rescrv_blue_verif)]
+        for _ in 0..verif::default_capacity() {
+            waiters.push(Waiter::new());
+        }
+        #[cfg(not(rescrv_blue_verif))]
         for _ in 0..MAX_CONCURRENCY {
+            waiters.push(Waiter::new());
+        }
+        let state = WaitListState {
+            head: 0,
+            tail: 0,
+            waiting_for_available: 0,
+        };
+        Self {
+            state: Mutex::new(state),
+            waiters,
+            wait_waiter_available: Condvar::new(),
+        }
+    }
+
+    /// Create a new wait list with exactly `capacity` waiters.
+    #[cfg(rescrv_blue_verif)]
+    pub fn verif_with_capacity(capacity: usize) -> Self {
+        assert!(capacity > 0);
+        let mut waiters: Vec<Waiter<T>> = Vec::new();
+        for _ in 0..capacity {
             waiters.push(Waiter::new());
         }
         let state = WaitListState {
